@@ -131,6 +131,7 @@ func (t *tr) list(stmts []ast.Stmt, sc *scope, blk int, c ctx, k func() *cstmt) 
 		if !t.pureNode(s, t.trackedNames(sc)) {
 			t.refuse(s, "for loop with operations on tracked values")
 		}
+		t.staleAssigned(s, sc)
 		return rest(sc)()
 	}
 	t.refuse(stmts[0], "statement form %T", stmts[0])
@@ -934,6 +935,7 @@ func (t *tr) rangeStmt(s *ast.RangeStmt, sc *scope, c ctx, rest func() *cstmt) *
 		if !t.pureNode(s.Body, t.trackedNames(sc)) {
 			t.refuse(s, "loop over untracked data with operations on tracked values")
 		}
+		t.staleAssigned(s, sc)
 		return seqEffs(t.effects(s.X, sc), rest)
 	}
 	if (s.Key != nil || s.Value != nil) && s.Tok != token.DEFINE {
@@ -980,6 +982,7 @@ func (t *tr) rangeStmt(s *ast.RangeStmt, sc *scope, c ctx, rest func() *cstmt) *
 		if !t.pureNode(s.Body, t.trackedNames(sc)) {
 			t.refuse(s, "range over a tracked value that is neither a slice nor a map")
 		}
+		t.staleAssigned(s, sc)
 		return rest()
 	}
 	// what the body made stale and was declared outside it is stale in the next iteration too
@@ -994,6 +997,42 @@ func (t *tr) rangeStmt(s *ast.RangeStmt, sc *scope, c ctx, rest func() *cstmt) *
 		}
 	}
 	return seq(loop, rest())
+}
+
+// code that is skipped as a whole (a loop or function literal without operations on tracked values)
+// may still assign to tracked variables: they are not followed any more
+func (t *tr) staleAssigned(n ast.Node, sc *scope) {
+	mark := func(e ast.Expr) {
+		if id, ok := e.(*ast.Ident); ok {
+			if b := sc.lookup(id.Name); b != nil && b.kind == bTracked {
+				t.markStale(b, "variable "+id.Name+" assigned in skipped code at line "+strconv.Itoa(t.line(e)))
+			} else if b != nil && (b.kind == bErrFalse || b.kind == bOk || b.kind == bPath) {
+				b.kind = bUntracked
+			}
+		}
+	}
+	ast.Inspect(n, func(x ast.Node) bool {
+		switch s := x.(type) {
+		case *ast.AssignStmt:
+			if s.Tok != token.DEFINE {
+				for _, l := range s.Lhs {
+					mark(l)
+				}
+			}
+		case *ast.IncDecStmt:
+			mark(s.X)
+		case *ast.RangeStmt:
+			if s.Tok == token.ASSIGN {
+				mark(s.Key)
+				mark(s.Value)
+			}
+		case *ast.UnaryExpr:
+			if s.Op == token.AND {
+				mark(s.X) // address taken
+			}
+		}
+		return true
+	})
 }
 
 // ------------------------------------------------------------------------------ the stage functions
